@@ -72,6 +72,7 @@ type grpScenario struct {
 	DClose    bool              `json:"dclose"`   // every group is closed a second time after Close returned
 	NoNet     bool              `json:"nonet"`    // never end a call by the safety-net context cancel
 	DFKind    string            `json:"dfkind"`   // how the start of a claim is failed: notleader (default) | conn
+	Leaderless   *int           `json:"leaderless"`   // this partition is listed by the metadata with ErrLeaderNotAvailable (leader -1)
 	LookupFail   bool           `json:"lookupfail"`   // once the coordinator is down, coordinator lookups are answered with an error too
 	ReturnErrors bool           `json:"returnerrors"` // Consumer.Return.Errors
 	Clients   []grpClientScript `json:"clients"`
@@ -299,6 +300,11 @@ func (s *grpSim) handle(req *request) (encoderWithHeader, bool) {
 		}
 		res.AddBroker(s.addr(1), 2)
 		for p := 0; p < np; p++ {
+			if s.sc.Leaderless != nil && *s.sc.Leaderless == p {
+				// the partition exists but has no leader at the moment
+				res.AddTopicPartition(grpTopic, int32(p), -1, []int32{2}, []int32{}, nil, ErrLeaderNotAvailable)
+				continue
+			}
 			res.AddTopicPartition(grpTopic, int32(p), 2, []int32{2}, []int32{2}, nil, ErrNoError)
 		}
 		return res, false
@@ -639,6 +645,7 @@ func (s *grpSim) handleSync(cl string, r *SyncGroupRequest) (encoderWithHeader, 
 			return fail("rebalance")
 		}
 		if s.state == "Completing" && r.MemberId == s.leader {
+			s.recordPlan(cl, r)
 			for id, a := range r.GroupAssignments {
 				if mm := s.members[id]; mm != nil {
 					mm.assignment = a
@@ -653,6 +660,75 @@ func (s *grpSim) handleSync(cl string, r *SyncGroupRequest) (encoderWithHeader, 
 		}
 		s.cond.Wait()
 	}
+}
+
+// recordPlan logs the assignments the group leader hands to SyncGroup together with what they have to cover: every
+// partition the cluster metadata lists (leaderless ones included) for every topic some member subscribes to.
+func (s *grpSim) recordPlan(cl string, r *SyncGroupRequest) {
+	plan := [][]interface{}{}
+	unknown, nosub, foreign := 0, 0, 0
+	var ids []string
+	for id := range r.GroupAssignments {
+		ids = append(ids, id)
+	}
+	sort.Strings(ids)
+	for _, id := range ids {
+		m := s.members[id]
+		if m == nil {
+			unknown++
+			continue
+		}
+		a := new(ConsumerGroupMemberAssignment)
+		if len(r.GroupAssignments[id]) > 0 {
+			if err := decode(r.GroupAssignments[id], a); err != nil {
+				unknown++
+				continue
+			}
+		}
+		subs := map[string]bool{}
+		meta := new(ConsumerGroupMemberMetadata)
+		if err := decode(m.meta, meta); err == nil {
+			for _, t := range meta.Topics {
+				subs[t] = true
+			}
+		}
+		for topic, ps := range a.Topics {
+			if topic != grpTopic {
+				foreign += len(ps)
+				continue
+			}
+			if !subs[topic] {
+				nosub += len(ps)
+			}
+			sorted := append([]int32{}, ps...)
+			sort.Slice(sorted, func(i, j int) bool { return sorted[i] < sorted[j] })
+			for _, p := range sorted {
+				plan = append(plan, []interface{}{m.client, int(p)})
+			}
+		}
+	}
+	subscribed := false
+	mem := []string{}
+	for _, m := range s.members {
+		mem = append(mem, m.client)
+		meta := new(ConsumerGroupMemberMetadata)
+		if err := decode(m.meta, meta); err == nil {
+			for _, t := range meta.Topics {
+				if t == grpTopic {
+					subscribed = true
+				}
+			}
+		}
+	}
+	sort.Strings(mem)
+	parts := []int{}
+	if subscribed {
+		for p := 0; p < s.np; p++ {
+			parts = append(parts, p)
+		}
+	}
+	s.rec.Ev("sync_plan", kv{"c": cl, "strategy": s.protocol, "plan": plan, "parts": parts, "members": mem,
+		"unknown": unknown, "nosub": nosub, "foreign": foreign})
 }
 
 func (s *grpSim) handleHeartbeat(cl string, r *HeartbeatRequest) (encoderWithHeader, bool) {
@@ -1056,6 +1132,13 @@ loop:
 	return nil
 }
 
+func grpLeaderless(sc *grpScenario) int {
+	if sc.Leaderless == nil {
+		return -1
+	}
+	return *sc.Leaderless
+}
+
 func grpStrategy(name string) BalanceStrategy {
 	switch name {
 	case "roundrobin":
@@ -1308,7 +1391,7 @@ func grpRunScenario(t *testing.T, rec *vRec, sc *grpScenario) (out grpOutcome, e
 	}
 	rec.Reset(kv{"id": sc.ID, "fam": sc.Fam, "members": len(sc.Clients), "np": sc.NP, "loglen": sc.LogLen, "logstart": sc.LogStart,
 		"initial": sc.Initial, "auto": sc.Auto, "hbretry": grpHbRetry, "strategy": sc.Strategy, "committed": committed,
-		"refresh0": sc.Refresh0})
+		"refresh0": sc.Refresh0, "leaderless": grpLeaderless(sc)})
 	for _, c := range run.clients {
 		go c.drive()
 	}
